@@ -55,6 +55,7 @@ type SpecFunc struct {
 	Params []SpecParam
 	Ret    string
 	Body   string // empty -> uninterpreted
+	Opaque bool   // declared function + definitional axiom with a pattern (heap-free body), never a macro
 	Line   int
 	File   string
 }
@@ -79,7 +80,7 @@ type PkgContracts struct {
 }
 
 var reFunc = regexp.MustCompile(`^func\s+(?:\(\s*(?:\w+\s+)?\*?([\w.]+)(?:\[[^\]]*\])?\s*\)\s*)?([\w./$]+)\s*$`)
-var reSpec = regexp.MustCompile(`^spec\s+func\s+(\w+)\s*\(([^)]*)\)\s*([^=]*?)\s*(?:=\s*(.*))?$`)
+var reSpec = regexp.MustCompile(`^spec\s+(?:opaque\s+)?func\s+(\w+)\s*\(([^)]*)\)\s*([^=]*?)\s*(?:=\s*(.*))?$`)
 
 // ParseContracts reads <dir>/verif_contracts.go (and verif_contracts_*.go).
 func ParseContracts(dir string) (*PkgContracts, error) {
@@ -159,6 +160,7 @@ func (pc *PkgContracts) parseFile(path string) error {
 				return fmt.Errorf("%s:%d: bad spec func %q", path, l.line, t)
 			}
 			sf := &SpecFunc{Name: m[1], Ret: strings.TrimSpace(m[3]), Body: strings.TrimSpace(m[4]), Line: l.line, File: path}
+			sf.Opaque = strings.HasPrefix(strings.TrimSpace(strings.TrimPrefix(t, "spec")), "opaque")
 			for _, p := range splitTop(m[2], ',') {
 				p = strings.TrimSpace(p)
 				if p == "" {
